@@ -139,6 +139,9 @@ class CDF(keras.layers.Layer):
     """
     # pyformat: enable
     super(CDF, self).__init__(**kwargs)
+    if num_keypoints < 1 or units < 1:
+      raise ValueError("'num_keypoints' and 'units' must be at least 1. "
+                       "Given: %s, %s" % (num_keypoints, units))
     self.num_keypoints = num_keypoints
     self.units = units
     self.activation = activation
